@@ -22,6 +22,12 @@ pub open spec fn parse_post(range: Option<&HeaderValue>, len: u64, res: Resolved
     parse_spec(hv_str(range), len, res is None, res is NotSatisfiable, match res { ResolvedRanges::Satisfiable(v) => Some(v@), _ => None })
 }
 
+//@fn src/range.rs :: fn parse_pos props=C03,C13 implicit=C13 rules=R20 missing=skip
+fn parse_pos(s: Str) -> (r: Option<u64>)
+    ensures /*@C03 #positions_are_digits_only*/ r == sp_pos(s),
+//@body
+//@end
+
 //@fn src/range.rs :: fn parse props=C02,C03,C13 implicit=C03,C13 rules=R10,R16,R19,R20,R7,R27,R29
 #[verifier::loop_isolation(false)]
 pub fn parse(range: Option<&HeaderValue>, len: u64) -> (res: ResolvedRanges)
